@@ -185,6 +185,11 @@ func mkInt(t *Term, k types.BasicKind) value {
 func wrapMod(t *Term, k types.BasicKind) *Term {
 	bits, signed := kindBits(k)
 	m := IntConst(pow2(bits))
+	if h := t.knownHi(); h != nil {
+		if _, kh := kindRange(k); h.Cmp(kh) <= 0 {
+			return t // known to be in range
+		}
+	}
 	if !signed {
 		return EMod(t, m)
 	}
@@ -198,6 +203,9 @@ func wrap1(t *Term, k types.BasicKind) *Term {
 		return wrapMod(t, k)
 	}
 	lo, hi := kindRange(k)
+	if h := t.knownHi(); h != nil && h.Cmp(hi) <= 0 {
+		return t // known to be in range
+	}
 	bits, _ := kindBits(k)
 	m := IntConst(pow2(bits))
 	return Ite(Gt(t, IntConst(hi)), Sub(t, m), Ite(Lt(t, IntConst(lo)), Add(t, m), t))
@@ -307,6 +315,13 @@ func symBinop(i *interpreter, op token.Token, x, y value) value {
 		}
 		return mkInt(bvOp("bvand", a, b, k), k)
 	case token.OR:
+		// byte assembly (x | y<<8 ...): operands with disjoint bit ranges add up
+		if ha := a.knownHi(); ha != nil && b.knownHi() != nil && b.knownTz() > 0 && ha.BitLen() <= b.knownTz() {
+			return mkInt(Add(a, b), k)
+		}
+		if hb := b.knownHi(); hb != nil && a.knownHi() != nil && a.knownTz() > 0 && hb.BitLen() <= a.knownTz() {
+			return mkInt(Add(a, b), k)
+		}
 		return mkInt(bvOp("bvor", a, b, k), k)
 	case token.XOR:
 		return mkInt(bvOp("bvxor", a, b, k), k)
